@@ -135,6 +135,14 @@ def build_matrix():
     E("Sequence/data/wrong-alphabet-letter", True, va, lambda: Sequence("ACGTX", Alphabet.NT_STRICT))
     E("Sequence/data/protein-in-nucleotide-alphabet", True, va, lambda: Sequence("MKVLE", Alphabet.NT_EXTENDED_GAPPED))
     E("Sequence/data/gap-in-ungapped-alphabet", True, va, lambda: Sequence("AC-GT", Alphabet.NT_STRICT))
+    # one foreign character (white space, control, digit, punctuation, a letter of another alphabet) at the start, in the middle, at the end
+    for alpha_name in ("NT_STRICT", "NT_EXTENDED_GAPPED", "AA"):
+        body = {"NT_STRICT": "ACGTAC", "NT_EXTENDED_GAPPED": "ACGTNR-AC", "AA": "MKVLEA"}[alpha_name]
+        for ch_name, ch in (("newline", "\n"), ("crlf", "\r\n"), ("two-newlines", "\n\n"), ("blank", " "), ("tab", "\t"), ("digit", "7"), ("dot", "."),
+                            ("bracket", "]"), ("caret", "^"), ("backslash", "\\"), ("dollar", "$"), ("foreign-letter", "J" if alpha_name != "AA" else "1")):
+            for pos_name, data in (("start", ch + body), ("middle", body[:3] + ch + body[3:]), ("end", body + ch)):
+                E(f"Sequence/data/foreign-{ch_name}-at-{pos_name}-{alpha_name}", True, va,
+                  lambda data=data, alpha_name=alpha_name: Sequence(data, Alphabet[alpha_name]))
     E("Sequence/parent/location-length-mismatch", True, "Sequence.__init__: 'raise MismatchedParentException(\"Sequence length ... does not equal parent location length\")'",
       lambda: Sequence(G40, Alphabet.NT_STRICT, parent=Parent(location=SingleInterval(0, 5, P))))
     E("Sequence/parent/wrong-type-int", True, "make_parent: TypeError", lambda: Sequence("ACGT", Alphabet.NT_STRICT, parent=5))
